@@ -98,7 +98,8 @@ class Engine(ExprMixin, ModelMixin, BuiltinMixin, MAMixin):
     def feasible(self, st):
         if not self.check_feasibility:
             return True
-        r = smt.satisfiable(st.hyps(), rlimit=2000000)
+        # pruning only: 'unknown' keeps the path (its obligations are still generated and must be discharged)
+        r = smt.satisfiable(st.hyps(), rlimit=2000000, timeout_ms=400)
         return r != "unsat"
 
     # ------------------------------------------------------------ branching
